@@ -200,6 +200,18 @@ def resolveTop (g : GoTy) (params : List Char) : Except Err Ty :=
   | .error e => .error e
   | .ok info => .ok (resolve false g info)
 
+/-- `tls.UnmarshalWithParams(b, &v, params)`: the parameter tag first, then `parseField` on the whole value. -/
+def unmarshalWithParams (g : GoTy) (params : List Char) (bs : Bytes) : Except Err (Val × Bytes) :=
+  match resolveTop g params with
+  | .error e => .error e
+  | .ok t => dec t bs
+
+/-- `tls.MarshalWithParams(v, params)`. -/
+def marshalWithParams (g : GoTy) (params : List Char) (v : Val) : Except Err Bytes :=
+  match resolveTop g params with
+  | .error e => .error e
+  | .ok t => enc t v
+
 end Tls
 
 deriving instance DecidableEq for Tls.GoTy, Tls.GoFields
